@@ -125,6 +125,15 @@ pub mod verif {
         }
         N_EVENTS += 1;
     }
+    /// nondeterministic witness (the crate is also type-checked by plain rustc, without Kani, by the type-link obligations)
+    #[cfg(kani)]
+    fn nondet_usize() -> usize {
+        kani::any()
+    }
+    #[cfg(not(kani))]
+    fn nondet_usize() -> usize {
+        0
+    }
     /// is the byte at `a` inside some interval made R|W|X by a successful mprotect, or inside a
     /// live RWX mapping handed out by mmap?
     pub fn writable_byte(a: usize) -> bool {
@@ -153,7 +162,7 @@ pub mod verif {
     /// is EVERY byte of [a, a+n) writable (by the union of all successful mprotect calls and live
     /// mappings)?  ∀ by nondeterministic witness: use in positive (asserted) positions only.
     pub fn writable(a: usize, n: usize) -> bool {
-        let w: usize = kani::any();
+        let w: usize = nondet_usize();
         if w >= n {
             return true;
         }
@@ -166,7 +175,7 @@ pub mod verif {
         let s = start as usize;
         let e = end as usize;
         if e > s {
-            let w: usize = kani::any();
+            let w: usize = nondet_usize();
             if w < e - s && !writable_byte(s + w) {
                 FLUSH_UNPROT = true;
             }
